@@ -73,7 +73,7 @@ ARule(o, q, r) ==
   /\ IF o.kind = "Iceberg"
      THEN IF exhausted
           THEN IF o.hid = 0 THEN ~r.some
-               ELSE r.some /\ r.uvis <= o.vis /\ r.uvis = r.hr /\ r.uvis = AMin(o.hid, o.vis)
+               ELSE r.some /\ r.uvis <= o.vis /\ r.uvis = r.hr
           ELSE r.some /\ r.uvis = nv /\ r.hr = 0
      ELSE IF o.kind = "Reserve"
      THEN IF wants THEN r.some /\ r.hr = amount /\ r.uvis = nv + amount
